@@ -96,6 +96,18 @@ def cases(ctx):
             cs.append(dict(op='tconv', table='user', tkey='ints', rows=ints, form='map', a=qj(a), u=u, v=v,
                            rep='frac' if a.denominator == 3 else ('dec' if a.denominator == 2 else 'int')))
             cs.append(dict(op='tcmp', table='user', tkey='ints', rows=ints, form='map', a=qj(a), u=u, b=qj(F(47)), v=v, c='eq'))
+    # units defined through others (milli-x, milli-y) in a table-converted type; the text spelling of a conversion
+    rows_xy = [row('x', 'y', F(9, 5), F(32))]
+    for a in (F(5), F(0), F(-40), F(1, 3)):
+        for u, v in itertools.product(('x', 'y', 'z', 'mx', 'my'), repeat=2):
+            cs.append(dict(op='tconv', table='user', tkey='derived', rows=rows_xy, form='list', a=qj(a), u=u, v=v, rep='frac'))
+            cs.append(dict(op='tconv', how='str', table='user', tkey='derived', rows=rows_xy, form='list', a=qj(a), u=u, v=v, rep='frac'))
+        for u, v in (('mx', 'my'), ('my', 'mx'), ('mx', 'x')):
+            cs.append(dict(op='tcmp', table='user', tkey='derived', rows=rows_xy, form='list', a=qj(a), u=u, b=qj(a), v=v, c='eq'))
+            cs.append(dict(op='tcmp', table='user', tkey='derived', rows=rows_xy, form='list', a=qj(a), u=u, b=qj(a), v=v, c='lt'))
+    for a in (F(20), F(0), F(27315, 100), F(-40)):
+        for u, v in itertools.product(UN, UN):
+            cs.append(dict(op='tconv', how='str', table='temp', a=qj(a), u=u, v=v, rep='frac'))
     for j, (r1, r2) in enumerate(two):
         key = 'two%d' % j
         for a in (F(5), F(-3, 4), F(0), F(10, 3)):
